@@ -250,7 +250,7 @@ def check_run(run, res, spec):
     live = run.live_threads()
     if live:
         raise V("thread-alive", "logical thread(s) still alive: %r" % live)
-    if run.app.ping_thread is not None and run.app.ping_thread.is_alive():
+    if getattr(run.app, "ping_thread", None) is not None and run.app.ping_thread.is_alive():
         raise V("thread-alive", "ping thread alive")
     # second run equals a fresh object's run on the same scenario (differential)
     if len(runs) == 2 and not exp.get("closer") and not exp.get("second_clean") and not exp.get("second"):
